@@ -3,8 +3,14 @@
 Everything the Coq model of the HTTP client treats as a constant is located in the C text here:
 limits, the two terminator literals, the framing header names, the literals of the request
 serialiser together with the numbers of the length precomputation, the status-line format, the
-bases / trailing flags of the two PARSENUM_EX calls, the status ranges."""
+bases / trailing flags of the two PARSENUM_EX calls, the status ranges.
+
+The patterns look for calls, literals and comparisons inside the named function and avoid depending
+on loop shapes or on the names of locals, so that a behaviour-preserving rewrite (for -> while,
+renamed local, reordered independent statements) regenerates the same file."""
 from common import *
+
+ID = r"[A-Za-z_][A-Za-z_0-9>\.\-\[\]\*]*"      # an lvalue-ish token (H->hepos, *bufpos, buflen ...)
 
 
 def _one(pattern, src, what, flags=re.S):
@@ -14,12 +20,19 @@ def _one(pattern, src, what, flags=re.S):
     return m
 
 
+def _all(pattern, src, what, flags=re.S):
+    ms = re.findall(pattern, src, flags)
+    if not ms:
+        raise NotFound(what)
+    return ms
+
+
 def _lit(s):
     return unescape(s)
 
 
 def _func(src, name):
-    """Body text of the function definition `name(` ... up to the next line starting with '}'."""
+    """Text of the function definition `name(` ... up to the next line starting with '}'."""
     m = re.search(r"^%s\(.*?^\}" % re.escape(name), src, flags=re.S | re.M)
     if not m:
         raise NotFound("function " + name)
@@ -33,6 +46,13 @@ def _int_expr(txt):
     return int(eval(txt, {"__builtins__": {}}))
 
 
+def _same(vals, what):
+    vals = list(vals)
+    if len(set(vals)) != 1:
+        raise NotFound("%s: inconsistent numbers %r" % (what, vals))
+    return vals[0]
+
+
 def extract(repo):
     src = strip_comments(read(repo, "http/http.c"))
     nb = strip_comments(read(repo, "netbuf/netbuf_read.c"))
@@ -40,56 +60,47 @@ def extract(repo):
     out += coq_def_N("maxhdr", define_int(src, "MAXHDR"))
     out += coq_def_N("maxchlen", define_int(src, "MAXCHLEN"))
 
-    # callback_readdata: if (H->readlen > 1024 * 1024) waitlen = 1024 * 1024;
+    # ---- callback_readdata
     rdd = _func(src, "callback_readdata")
-    m = _one(r"if\s*\(\s*H->readlen\s*>\s*([0-9\s\*]+)\)\s*waitlen\s*=\s*([0-9\s\*]+);", rdd, "wait cap")
-    a, b = _int_expr(m.group(1)), _int_expr(m.group(2))
-    if a != b:
-        raise NotFound("wait cap test %d and value %d differ" % (a, b))
-    out += coq_def_N("waitcap", a)
+    m = _one(r"if\s*\(\s*H->readlen\s*>\s*([0-9\s\*]+)\)\s*\{?\s*waitlen\s*=\s*([0-9\s\*]+);", rdd, "wait cap")
+    out += coq_def_N("waitcap", _same([_int_expr(m.group(1)), _int_expr(m.group(2))], "wait cap"))
     # the chunk's trailing EOL is excluded from the body: the 2 of `H->readlen <= 2` / `H->readlen - 2`
-    m = _one(r"if\s*\(\s*H->chunked\s*\)\s*\{\s*if\s*\(\s*H->readlen\s*<=\s*(\d+)\s*\)\s*datalen\s*=\s*0\s*;\s*"
-             r"else\s+if\s*\(\s*datalen\s*>\s*H->readlen\s*-\s*(\d+)\s*\)\s*datalen\s*=\s*H->readlen\s*-\s*(\d+)\s*;", rdd,
-             "chunk EOL exclusion in callback_readdata")
-    if len({m.group(1), m.group(2), m.group(3)}) != 1:
-        raise NotFound("chunk EOL exclusion uses different numbers")
-    out += coq_def_N("chunk_eol_len", int(m.group(1)))
+    m = _one(r"if\s*\(\s*H->chunked\s*\)\s*\{(.*?)\}", rdd, "chunk EOL exclusion in callback_readdata")
+    blk = m.group(1)
+    a = _one(r"H->readlen\s*<=\s*(\d+)", blk, "chunk EOL exclusion: readlen <= N").group(1)
+    bs = _all(r"H->readlen\s*-\s*(\d+)", blk, "chunk EOL exclusion: readlen - N")
+    out += coq_def_N("chunk_eol_len", int(_same([a] + bs, "chunk EOL exclusion")))
 
-    # terminators
+    # ---- callback_read_header: terminator literal, its length wherever hepos + N is written
     rh = _func(src, "callback_read_header")
-    m = _one(r'H->hepos\s*\+\s*(\d+)\s*<=\s*buflen\s*;\s*H->hepos\+\+\s*\)\s*\{\s*if\s*\(\s*memcmp\(\s*&buf\[H->hepos\]\s*,\s*%s\s*,\s*(\d+)\s*\)\s*==\s*0' % STR,
-             rh, "header terminator scan")
-    if m.group(1) != m.group(3):
-        raise NotFound("terminator scan bound and memcmp length differ")
-    term = _lit(m.group(2))
-    if len(term) != int(m.group(1)):
-        raise NotFound("terminator literal length")
+    m = _one(r"memcmp\(\s*&?[^,]*hepos[^,]*,\s*%s\s*,\s*(\d+)\s*\)\s*==\s*0" % STR, rh, "header terminator memcmp")
+    term = _lit(m.group(1))
+    ns = [int(m.group(2)), len(term)] + [int(x) for x in _all(r"hepos\s*\+\s*(\d+)", rh, "hepos + N")]
+    _same(ns, "header terminator length")
     out += coq_def_list("hdr_terminator", term)
-    m2 = _one(r"if\s*\(\s*H->hepos\s*\+\s*(\d+)\s*<=\s*buflen\s*\)\s*return\s*\(\s*gotheaders\(\s*H\s*,\s*buf\s*,\s*H->hepos\s*\+\s*(\d+)\s*\)", rh,
-              "gotheaders call")
-    if not (m2.group(1) == m2.group(2) == m.group(1)):
-        raise NotFound("terminator lengths in callback_read_header differ")
-    m = _one(r"netbuf_read_wait\(\s*H->R\s*,\s*buflen\s*\+\s*(\d+)\s*,\s*callback_read_header", rh, "header wait")
+    m = _one(r"netbuf_read_wait\(\s*H->R\s*,\s*\w+\s*\+\s*(\d+)\s*,\s*callback_read_header", rh, "header wait")
     out += coq_def_N("hdr_wait_more", int(m.group(1)))
 
+    # ---- findeol / sgetline
     fe = _func(src, "findeol")
-    m = _one(r'bufpos\s*\+\s*(\d+)\s*<=\s*buflen\s*;\s*bufpos\+\+\s*\)\s*\{\s*if\s*\(\s*memcmp\(\s*&buf\[bufpos\]\s*,\s*%s\s*,\s*(\d+)\s*\)' % STR, fe, "findeol")
-    eol = _lit(m.group(2))
-    if not (int(m.group(1)) == int(m.group(3)) == len(eol)):
-        raise NotFound("findeol lengths differ")
+    m = _one(r"memcmp\(\s*[^,]+,\s*%s\s*,\s*(\d+)\s*\)\s*==\s*0" % STR, fe, "findeol memcmp")
+    eol = _lit(m.group(1))
+    b = _one(r"\+\s*(\d+)\s*<=", fe, "findeol bound").group(1)
+    _same([int(m.group(2)), len(eol), int(b)], "findeol lengths")
     out += coq_def_list("eol", eol)
     sg = _func(src, "sgetline")
-    m = _one(r"\*bufpos\s*\+=\s*\*linelen\s*\+\s*(\d+)\s*;", sg, "sgetline advance")
+    m = _one(r"\*\w+\s*\+=\s*\*\w+\s*\+\s*(\d+)\s*;", sg, "sgetline advance")
     out += coq_def_N("sgetline_skip", int(m.group(1)))
 
+    # ---- gotheaders
     gh = _func(src, "gotheaders")
-    m = _one(r"bufpos\s*\+=\s*linelen\s*\+\s*(\d+)\s*\)", gh, "line count advance")
+    m = _one(r"\w+\s*\+=\s*linelen\s*\+\s*(\d+)", gh, "line count advance")
     out += coq_def_N("count_skip", int(m.group(1)))
     m = _one(r"H->res\.nheaders\s*-=\s*(\d+)\s*;", gh, "nheaders adjustment")
     out += coq_def_N("nonheader_lines", int(m.group(1)))
-    m = _one(r"assert\(\s*bufpos\s*\+\s*(\d+)\s*==\s*H->res_headlen\s*\)", gh, "end-of-block assert")
+    m = _one(r"assert\(\s*\w+\s*\+\s*(\d+)\s*==\s*H->res_headlen\s*\)", gh, "end-of-block assert")
     out += coq_def_N("final_blank_len", int(m.group(1)))
-    m = _one(r"sscanf\(\s*s\s*,\s*%s\s*,\s*&major\s*,\s*&minor\s*,\s*&H->res\.status\s*\)\s*<\s*(\d+)" % STR, gh, "status-line sscanf")
+    m = _one(r"sscanf\(\s*\w+\s*,\s*%s\s*,\s*&major\s*,\s*&minor\s*,\s*&H->res\.status\s*\)\s*<\s*(\d+)" % STR, gh, "status-line sscanf")
     out += coq_def_list("status_format", _lit(m.group(1)))
     out += coq_def_N("status_min_conversions", int(m.group(2)))
     m = _one(r"if\s*\(\s*major\s*!=\s*(\d+)\s*\)", gh, "major version test")
@@ -100,45 +111,53 @@ def extract(repo):
     m = _one(r"\(\s*H->res\.status\s*>=\s*(\d+)\s*\)\s*&&\s*\(\s*H->res\.status\s*<=\s*(\d+)\s*\)", gh, "1xx test")
     out += coq_def_N("interim_lo", int(m.group(1)))
     out += coq_def_N("interim_hi", int(m.group(2)))
-    m = _one(r"\(\s*H->req_ishead\s*!=\s*0\s*\)\s*\|\|\s*\(\s*H->res\.status\s*==\s*(\d+)\s*\)\s*\|\|\s*\(\s*H->res\.status\s*==\s*(\d+)\s*\)", gh, "bodiless statuses")
-    out += "Definition bodiless_statuses : list N := [%d; %d]%%N.\n" % (int(m.group(1)), int(m.group(2)))
+    bodiless = [int(x) for x in _all(r"H->res\.status\s*==\s*(\d+)", gh, "bodiless statuses")]
+    out += "Definition bodiless_statuses : list N := [%s]%%N.\n" % "; ".join(map(str, bodiless))
+    if not re.search(r"H->req_ishead\s*!=\s*0", gh):
+        raise NotFound("HEAD test in gotheaders")
     # OWS
-    m = _one(r"\(\s*s\[s_len\s*-\s*1\]\s*==\s*'(.+?)'\s*\)\s*\|\|\s*\(\s*s\[s_len\s*-\s*1\]\s*==\s*'(.+?)'\s*\)", gh, "trailing OWS test")
-    ows_trail = sorted(_lit(m.group(1)) + _lit(m.group(2)))
+    trail = _all(r"\w+\[\w+\s*-\s*1\]\s*==\s*'(.+?)'", gh, "trailing OWS test")
+    ows_trail = sorted(sum((_lit(t) for t in trail), []))
     m = _one(r"strspn\(\s*H->res\.headers\[i\]\.value\s*,\s*%s\s*\)" % STR, gh, "leading OWS strspn")
-    ows_lead = sorted(_lit(m.group(1)))
     out += coq_def_list("ows_trailing", ows_trail)
-    out += coq_def_list("ows_leading", ows_lead)
-    m = _one(r"cpos\s*=\s*strcspn\(\s*s\s*,\s*%s\s*\)" % STR, gh, "header split strcspn")
+    out += coq_def_list("ows_leading", sorted(_lit(m.group(1))))
+    m = _one(r"=\s*strcspn\(\s*\w+\s*,\s*%s\s*\)" % STR, gh, "header split strcspn")
     out += coq_def_list("hdr_separators", _lit(m.group(1)))
     # framing
-    m = _one(r'te\s*=\s*http_findheader\([^;]*?%s\s*\)\s*\)\s*!=\s*NULL\s*\)\s*\{\s*if\s*\(\s*strstr\(\s*te\s*,\s*%s\s*\)' % (STR, STR), gh, "Transfer-Encoding lookup")
+    m = _one(r'te\s*=\s*http_findheader\([^;]*?%s\s*\)' % STR, gh, "Transfer-Encoding lookup")
     out += coq_def_list("hdr_transfer_encoding", _lit(m.group(1)))
-    out += coq_def_list("te_chunked", _lit(m.group(2)))
-    m = _one(r'clen\s*=\s*http_findheader\([^;]*?%s\s*\)\s*\)\s*!=\s*NULL\s*\)\s*\{\s*if\s*\(\s*PARSENUM_EX\(\s*&len\s*,\s*clen\s*,\s*(\d+)\s*,\s*(\d+)\s*\)' % STR, gh, "Content-Length lookup")
+    m = _one(r'strstr\(\s*te\s*,\s*%s\s*\)\s*!=\s*NULL' % STR, gh, "chunked test")
+    out += coq_def_list("te_chunked", _lit(m.group(1)))
+    m = _one(r'clen\s*=\s*http_findheader\([^;]*?%s\s*\)' % STR, gh, "Content-Length lookup")
     out += coq_def_list("hdr_content_length", _lit(m.group(1)))
-    out += coq_def_N("clen_base", int(m.group(2)))
-    out += coq_def_N("clen_trailing", int(m.group(3)))
+    m = _one(r'PARSENUM_EX\(\s*&len\s*,\s*clen\s*,\s*(\d+)\s*,\s*(\d+)\s*\)', gh, "Content-Length PARSENUM_EX")
+    out += coq_def_N("clen_base", int(m.group(1)))
+    out += coq_def_N("clen_trailing", int(m.group(2)))
 
+    # ---- callback_chunkedheader
     ch = _func(src, "callback_chunkedheader")
-    m = _one(r"PARSENUM_EX\(\s*&clen\s*,\s*\(const char \*\)buf\s*,\s*0\s*,\s*SIZE_MAX\s*,\s*(\d+)\s*,\s*(\d+)\s*\)", ch, "chunk size PARSENUM_EX")
-    out += coq_def_N("chunk_base", int(m.group(1)))
-    out += coq_def_N("chunk_trailing", int(m.group(2)))
-    terminated = 1 if re.search(r"buf\[eolpos\]\s*=\s*'\\0'\s*;\s*if\s*\(\s*PARSENUM_EX", ch) else 0
+    m = _one(r"PARSENUM_EX\(\s*&clen\s*,\s*\(const char \*\)\s*(\w+)\s*,\s*0\s*,\s*SIZE_MAX\s*,\s*(\d+)\s*,\s*(\d+)\s*\)", ch, "chunk size PARSENUM_EX")
+    bufname = m.group(1)
+    out += coq_def_N("chunk_base", int(m.group(2)))
+    out += coq_def_N("chunk_trailing", int(m.group(3)))
+    # is the line NUL-terminated at the EOL position before it is parsed?
+    pre = ch[:m.start()]
+    terminated = 1 if re.search(r"%s\[eolpos\]\s*=\s*(?:'\\0'|0)\s*;" % re.escape(bufname), pre) else 0
     out += coq_def_N("chunk_line_terminated", terminated)
     m = _one(r"netbuf_read_consume\(\s*H->R\s*,\s*eolpos\s*\+\s*(\d+)\s*\)", ch, "chunk line consume")
     out += coq_def_N("chunk_line_skip", int(m.group(1)))
-    m = _one(r"if\s*\(\s*clen\s*>\s*SIZE_MAX\s*-\s*(\d+)\s*\)\s*return\s*\(\s*toobig\(H\)\s*\)\s*;\s*H->readlen\s*=\s*clen\s*\+\s*(\d+)\s*;", ch, "readlen = clen + 2")
-    if m.group(1) != m.group(2):
-        raise NotFound("overflow guard and readlen increment differ")
-    out += coq_def_N("chunk_readlen_extra", int(m.group(1)))
-    m = _one(r"netbuf_read_wait\(\s*H->R\s*,\s*buflen\s*\+\s*(\d+)\s*,\s*callback_chunkedheader", ch, "chunk header wait")
+    g = _one(r"clen\s*>\s*SIZE_MAX\s*-\s*(\d+)", ch, "clen + 2 overflow guard").group(1)
+    a = _one(r"H->readlen\s*=\s*clen\s*\+\s*(\d+)\s*;", ch, "readlen = clen + 2").group(1)
+    out += coq_def_N("chunk_readlen_extra", int(_same([g, a], "overflow guard / readlen increment")))
+    if not re.search(r"clen\s*>\s*H->res_bodylen_max\s*-\s*H->res\.bodylen", ch):
+        raise NotFound("chunk size limit test")
+    m = _one(r"netbuf_read_wait\(\s*H->R\s*,\s*\w+\s*\+\s*(\d+)\s*,\s*callback_chunkedheader", ch, "chunk header wait")
     out += coq_def_N("chunk_wait_more", int(m.group(1)))
     te = _func(src, "callback_read_toeof")
     m = _one(r"netbuf_read_wait\(\s*H->R\s*,\s*(\d+)\s*,\s*callback_read_toeof", te, "read-to-EOF wait")
     out += coq_def_N("toeof_wait", int(m.group(1)))
 
-    # request serialiser
+    # ---- request serialiser
     rq = _func(src, "http_request2")
     m = _one(r'strcmp\(\s*request->method\s*,\s*%s\s*\)\s*==\s*0' % STR, rq, "HEAD test")
     out += coq_def_list("method_head", _lit(m.group(1)))
@@ -149,15 +168,18 @@ def extract(repo):
     out += coq_def_N("reqlen_per_header", int(m.group(1)))
     m = _one(r"H->req_headlen\s*\+=\s*(\d+)\s*;", rq, "blank line length")
     out += coq_def_N("reqlen_blank", int(m.group(1)))
-    m = _one(r'stpcpy\(s,\s*request->method\);\s*s\s*=\s*stpcpy\(s,\s*%s\);\s*s\s*=\s*stpcpy\(s,\s*request->path\);\s*s\s*=\s*stpcpy\(s,\s*%s\);' % (STR, STR), rq, "request line stpcpy chain")
-    out += coq_def_list("req_sp", _lit(m.group(1)))
-    out += coq_def_list("req_version", _lit(m.group(2)))
-    m = _one(r'stpcpy\(s,\s*request->headers\[i\]\.header\);\s*s\s*=\s*stpcpy\(s,\s*%s\);\s*s\s*=\s*stpcpy\(s,\s*request->headers\[i\]\.value\);\s*s\s*=\s*stpcpy\(s,\s*%s\);\s*\}\s*s\s*=\s*stpcpy\(s,\s*%s\);' % (STR, STR, STR), rq, "header stpcpy chain")
-    out += coq_def_list("req_colon", _lit(m.group(1)))
-    out += coq_def_list("req_eol", _lit(m.group(2)))
-    out += coq_def_list("req_blank", _lit(m.group(3)))
+    # the stpcpy chain, in order
+    chain = re.findall(r"stpcpy\(\s*s\s*,\s*(%s|[A-Za-z_>\-\.\[\]]+)\s*\)" % STR, rq)
+    args = [c[0] for c in chain]
+    shape = ["request->method", None, "request->path", None, "request->headers[i].header", None,
+             "request->headers[i].value", None, None]
+    if len(args) != len(shape) or any(s is not None and s != a for s, a in zip(shape, args)):
+        raise NotFound("stpcpy chain of http_request2 has an unexpected shape: %r" % args)
+    lits = [_lit(a[1:-1]) for s, a in zip(shape, args) if s is None]
+    for nm, v in zip(["req_sp", "req_version", "req_colon", "req_eol", "req_blank"], lits):
+        out += coq_def_list(nm, v)
 
-    # reader geometry at creation (netbuf_read_init2)
-    m = _one(r"R->buflen\s*=\s*(\d+)\s*;\s*if\s*\(\s*\(R->buf\s*=\s*malloc\(R->buflen\)\)", nb, "initial reader buffer")
+    # ---- reader geometry at creation (netbuf_read_init2)
+    m = _one(r"R->buflen\s*=\s*(\d+)\s*;", _func(nb, "netbuf_read_init2"), "initial reader buffer")
     out += coq_def_N("reader_init_buflen", int(m.group(1)))
     return {"Repo_http.v": out}
